@@ -256,6 +256,16 @@ Proof.
                 op_emit true P nq nc (Gate name al targets controls) u emptyW =
                 target_wire true targets controls (fst (draw_multiq true P text targets controls)) u emptyW).
       { intros u Hu. apply (multi_inside P nq nc name al targets controls E1 E2 u emptyW Hu). }
+      assert (INNER : forall u, In u cs -> lmin targets <= u <= lmax targets ->
+                nth_error (mid (target_wire true targets controls
+                                  (fst (draw_multiq true P text targets controls)) u emptyW)) (width / 2)
+                = Some cND).
+      { intros u Hu Hv.
+        rewrite (target_inner_control targets controls _ u emptyW ND Hne HC Hu Hv).
+        cbn [mid emptyW]. rewrite app_nil_l.
+        rewrite (box_mid_length P text targets controls). fold width.
+        apply nth_error_set_at. rewrite (box_mid_length P text targets controls). fold width.
+        apply Nat.div_lt; lia. }
       apply in_app_iff in I. destruct I as [I|I].
       * (* nodes *)
         apply in_map_iff in I. destruct I as [u [E Hu]]. inj E.
@@ -273,12 +283,7 @@ Proof.
               destruct (qbridge_at targets cs (lmin cs) (lmax targets) width false v W4) as [Q _]; [lia|].
               (etransitivity; [apply Q|]). rewrite (proj2 (mem_true _ _) Hu). reflexivity.
            ++ assert (Hv : lmin targets <= v <= lmax targets) by lia.
-              rewrite (INSIDE v Hv).
-              rewrite (target_inner_control targets controls _ v emptyW ND Hne HC Hu Hv).
-              cbn [mid emptyW]. rewrite app_nil_l.
-              rewrite (box_mid_length P text targets controls). fold width.
-              apply nth_error_set_at. rewrite (box_mid_length P text targets controls). fold width.
-              apply Nat.div_lt; lia.
+              rewrite (INSIDE v Hv). exact (INNER v Hu Hv).
       * apply in_app_iff in I. destruct I as [I|I].
         -- (* upwards *)
            fold cs in I. destruct (lmax targets <? lmax cs) eqn:EU; [|contradiction].
@@ -353,16 +358,18 @@ Proof.
     { intros u Nu Iu. unfold op_emit. rewrite (emit_w_in _ _ _ _ (proj2 (mem_true _ _) Iu)).
       rewrite emit_w_out by (simpl; rewrite (proj2 (Nat.eqb_neq _ _) Nu); reflexivity).
       destruct (draw_meas P nq t c) as [[[a m] b] wd]. destruct MP as [Hw _]. simpl snd. rewrite Hw. reflexivity. }
+    assert (MT : nth_error (bot (op_emit true P nq nc (Meas t c) t emptyW)) ((5 + 2 * P) / 2) = Some cMD).
+    { rewrite OT. unfold draw_meas in *. pose proof (singleq_parts P sM) as SP.
+      destruct (draw_singleq P sM) as [[[a m] b] wd]. destruct SP as [Hw [Ha [Hm Hb]]].
+      simpl length in Hw.
+      rewrite (proj2 (Nat.ltb_lt t (c + nq))) by lia.
+      cbn [fst app3p app3 row_of bot emptyW]. rewrite app_nil_l.
+      replace (5 + 2 * P) with wd by lia. rewrite <- Hb.
+      apply nth_error_set_at. rewrite Hb, Hw. apply Nat.div_lt; lia. }
     apply in_app_iff in I. destruct I as [I|I].
     + destruct I as [E|[]]. inj E. split.
       * unfold op_wl. apply in_app_iff. left. apply in_range. lia.
-      * rewrite OT. unfold draw_meas in *. pose proof (singleq_parts P sM) as SP.
-        destruct (draw_singleq P sM) as [[[a m] b] wd]. destruct SP as [Hw [Ha [Hm Hb]]].
-        simpl length in Hw.
-        rewrite (proj2 (Nat.ltb_lt t (c + nq))) by lia.
-        cbn [fst app3p app3 row_of bot emptyW]. rewrite app_nil_l.
-        replace (5 + 2 * P) with wd by lia. rewrite <- Hb.
-        apply nth_error_set_at. rewrite Hb, Hw. apply Nat.div_lt; lia.
+      * exact MT.
     + apply in_app_iff in I. destruct I as [I|I]; [|apply in_app_iff in I; destruct I as [I|I]].
       * apply in_vline in I. destruct I as [u [k' [Hu E]]]. inj E.
         apply in_range in Hu.
@@ -459,14 +466,16 @@ Lemma step_links sty nq nc st o st' x :
 Proof.
   intros Hq W IN HS.
   destruct (step_grow sty nq nc st o Hq W IN) as [st1 [HS1 [_ HW]]].
-  rewrite HS in HS1. inversion HS1; subst. clear HS1.
+  assert (EQ : st1 = st' /\ place_x sty nq st (op_wl nq nc o) = x).
+  { rewrite HS in HS1. inversion HS1. auto. }
+  destruct EQ as [-> EX]. clear HS1.
   pose proof IN as [_ [IW _]].
   assert (ROW : forall v k, In v (op_wl nq nc o) ->
-            exists r, length r = place_x sty nq st (op_wl nq nc o) /\
+            exists r, length r = x /\
                       row_of k (wire_of st' v) = r ++ row_of k (op_emit true (padw sty) nq nc o v emptyW)).
   { intros v k Iv. destruct (op_wl_bound nq nc o v W Iv) as [Lv _].
+    pose proof (x_ge sty nq nc st o v Hq W IN Iv) as XG. rewrite EX in XG, HW.
     rewrite (HW v Lv), (proj2 (mem_true _ _) Iv).
-    pose proof (x_ge sty nq nc st o v Hq W IN Iv) as XG.
     destruct (IW v Lv) as [A [B C]].
     unfold grow, op_seg.
     destruct k; cbn [row_of top mid bot]; eexists; (split; [|reflexivity]);
@@ -506,7 +515,7 @@ Proof.
     + rewrite E. simpl. rewrite <- app_assoc. reflexivity.
     + simpl. rewrite L. reflexivity.
     + intros k o' x Ho Hx. destruct k as [|k].
-      * simpl in Ho, Hx. inversion Ho; inversion Hx; subst.
+      * simpl in Ho, Hx. injection Ho as ->. injection Hx as <-.
         destruct (step_links sty nq nc st o' st1 X Hq W1 IN HS) as [F B].
         pose proof (run_extends sty nq nc r st1 _ st' xs' Hq W2 I1 HR) as EX.
         split.
